@@ -11,6 +11,8 @@ import (
 	"sort"
 	"strings"
 	"sync"
+	"sync/atomic"
+	"time"
 
 	logger "github.com/ElrondNetwork/elrond-go-logger"
 	"github.com/ElrondNetwork/elrond-go/config"
@@ -171,6 +173,21 @@ func (m *model) lEpochs() []uint32 {
 	return out
 }
 
+// activeEpochs: every epoch of the storer's active list (configured window + epochs the stuck-shard
+// extension re-activated), newest first
+func (m *model) activeEpochs() []uint32 {
+	out := m.lEpochs()
+	if m.fh {
+		return out
+	}
+	for _, e := range m.active {
+		if !m.inL(e) {
+			out = append(out, e)
+		}
+	}
+	return out
+}
+
 // changeEpoch mirrors the documented behaviour of the storer for consecutive epochs
 func (m *model) changeEpoch(inForce *metaInfo) {
 	e := m.cur + 1
@@ -308,14 +325,68 @@ func (h *history) owedExtended(k string) (uint32, bool) {
 	return 0, false
 }
 
-// suppressed: the removed key may legitimately be found again (a copy may live in an epoch that may be active)
-func (h *history) suppressed(k string) bool {
+// suppressed: the removed key may legitimately be found again: a copy that was out of Remove's reach (its
+// epoch was not active then) lives in an epoch that is active now. Get only reads the configured window.
+func (h *history) suppressed(k string, windowOnly bool) bool {
 	for e, ks := range h.m.maybe {
-		if ks[k] && h.m.mayBeActive(e) {
+		if !ks[k] {
+			continue
+		}
+		if windowOnly {
+			if h.m.inL(e) {
+				return true
+			}
+		} else if h.m.mayBeActive(e) {
 			return true
 		}
 	}
 	return false
+}
+
+// extendedHolds: a copy of k may live in an epoch that is active only through the stuck-shard extension
+func (h *history) extendedHolds(k string) bool {
+	if h.m.fh {
+		return false
+	}
+	for _, e := range h.m.active {
+		if !h.m.inL(e) && h.m.maybe[e][k] {
+			return true
+		}
+	}
+	return false
+}
+
+// extendedKeys lists the keys for which extendedHolds is true
+func (h *history) extendedKeys() []string {
+	var out []string
+	for _, k := range h.keys {
+		if h.extendedHolds(k) {
+			out = append(out, k)
+		}
+	}
+	return out
+}
+
+// stuckCandidates: closed, still known epochs that a meta block for epoch e may name as "last finalized"
+// (within the 5-epoch limit), those holding owed keys first
+func (h *history) stuckCandidates(e uint32) []uint32 {
+	var with, without []uint32
+	for x := range h.m.closed {
+		if !h.m.exists[x] || e-x >= 5 {
+			continue
+		}
+		if len(h.m.must[x]) > 0 {
+			with = append(with, x)
+		} else {
+			without = append(without, x)
+		}
+	}
+	sort.Slice(with, func(i, j int) bool { return with[i] < with[j] })
+	sort.Slice(without, func(i, j int) bool { return without[i] < without[j] })
+	if len(with) > 0 {
+		return with
+	}
+	return without
 }
 
 func (h *history) checkValue(op, k string, got []byte) bool {
@@ -328,21 +399,30 @@ func (h *history) checkValue(op, k string, got []byte) bool {
 
 // classifyRemoved tells where a removed key is still found
 func (h *history) classifyRemoved(k string) string {
-	newest := true
-	for _, e := range h.m.lEpochs() {
-		h.ps.ClearCache()
-		if v, err := h.ps.GetFromEpoch([]byte(k), e); err == nil && len(v) > 0 && !h.m.fh {
-			if newest {
-				return "newest-active-epoch"
-			}
-			return "older-active-epoch"
+	if h.m.fh {
+		if len(h.m.lEpochs()) > 1 {
+			return "older-active-epoch" // the full-history storer searches all active epochs at once; a removal always reaches the newest
 		}
-		newest = false
+		return "unlocated"
 	}
-	if h.m.fh && len(h.m.lEpochs()) > 1 {
-		return "older-active-epoch" // the full-history storer searches all active epochs at once; a removal always reaches the newest
+	for _, e := range h.m.activeEpochs() {
+		h.ps.ClearCache()
+		if v, err := h.ps.GetFromEpoch([]byte(k), e); err == nil && len(v) > 0 {
+			return h.removedClass(e)
+		}
 	}
 	return "unlocated"
+}
+
+func (h *history) removedClass(e uint32) string {
+	switch {
+	case e == h.m.cur:
+		return "newest-active-epoch"
+	case h.m.inL(e):
+		return "older-active-epoch"
+	default:
+		return "extended-epoch"
+	}
 }
 
 // checkKey applies every owed / forbidden read for one key
@@ -396,8 +476,8 @@ func (h *history) checkKey(k string, deep bool) {
 		if !ks[k] || !m.inKeep(e) {
 			continue
 		}
-		if !deep && m.closed[e] && h.level {
-			continue // re-opening a level db for every probe is kept for the operation's own key
+		if h.level && m.closed[e] && (!deep || (r.Quick() && !rng.Chance(1, 3))) {
+			continue // re-opening a level db for every probe is kept for the operation's own key (quick: a third of those)
 		}
 		if rng.Chance(1, 2) {
 			ps.ClearCache()
@@ -420,13 +500,16 @@ func (h *history) checkKey(k string, deep bool) {
 			return
 		}
 	}
-	// removed keys
+	// removed keys: no read finds the key in any epoch of the active list (Get reads the configured window only)
 	if m.removed[k] {
-		if h.suppressed(k) {
+		supAll, supWindow := h.suppressed(k, false), h.suppressed(k, true)
+		if supAll {
 			h.kinds["check_removed_suppressed"]++
-			return
 		}
 		for _, op := range []string{"Get", "SearchFirst", "Has"} {
+			if (op == "Get" && supWindow) || (op != "Get" && supAll) {
+				continue
+			}
 			ps.ClearCache()
 			var err error
 			switch op {
@@ -441,27 +524,29 @@ func (h *history) checkKey(k string, deep bool) {
 			h.kinds["check_removed_"+op]++
 			if err == nil {
 				class := h.classifyRemoved(k)
-				h.violation("removed-key-still-readable class="+class, fmt.Sprintf("%s(%s) succeeds after Remove(%s) (no put of that key since; cache cleared; current epoch %d, %d active epochs)", op, k, k, m.cur, m.numActive))
+				h.violation("removed-key-still-readable class="+class, fmt.Sprintf("%s(%s) succeeds after Remove(%s) (no put of that key since; cache cleared; current epoch %d, %d active epochs, active list %v)", op, k, k, m.cur, m.numActive, m.active))
 				return
 			}
 		}
-		for _, e := range m.lEpochs() {
+		for _, e := range m.activeEpochs() {
 			if m.maybe[e][k] {
 				continue
+			}
+			if m.fh && supAll {
+				continue // the full-history read searches all active epochs and epoch+1
 			}
 			ps.ClearCache()
 			_, err := ps.GetFromEpoch(cp(key), e)
 			r.Eval(1)
 			h.kinds["check_removed_GetFromEpoch"]++
+			if !m.inL(e) {
+				h.kinds["check_removed_GetFromEpoch_extended"]++
+			}
 			if m.fh {
 				h.noteFullHistoryRead(e, err)
 			}
 			if err == nil {
-				class := "older-active-epoch"
-				if e == m.cur {
-					class = "newest-active-epoch"
-				}
-				h.violation("removed-key-still-readable class="+class, fmt.Sprintf("GetFromEpoch(%s, %d) succeeds after Remove(%s) (epoch %d is active, current %d)", k, e, k, e, m.cur))
+				h.violation("removed-key-still-readable class="+h.removedClass(e), fmt.Sprintf("GetFromEpoch(%s, %d) succeeds after Remove(%s) (epoch %d is in the active list %v, current %d)", k, e, k, e, m.active, m.cur))
 				return
 			}
 		}
@@ -491,11 +576,24 @@ func (h *history) noteFullHistoryRead(e uint32, err error) {
 	}
 }
 
+var levelNanos int64
+
 func runHistory(r *vk.Run, c *vk.Case, level bool, scratch string) {
 	rng := c.Rng
+	if level {
+		t0 := time.Now()
+		defer func() { atomic.AddInt64(&levelNanos, int64(time.Since(t0))) }()
+	}
 	fh := rng.Chance(1, 4)
+	// a third of the plain-storer histories (a quarter of all) is steered towards the stuck-shard shape: an
+	// extension re-activates an older epoch that holds live keys, then keys of that epoch are removed and read
+	stuck := !fh && rng.Chance(1, 3)
 	numActive := uint32(rng.Range(1, 3))
 	numKeep := numActive + uint32(rng.Intn(4))
+	if stuck {
+		numActive = uint32(rng.Range(1, 2))
+		numKeep = numActive + uint32(rng.Range(2, 4))
+	}
 	if numKeep < 2 && rng.Chance(2, 3) {
 		numKeep = 2
 	}
@@ -509,9 +607,9 @@ func runHistory(r *vk.Run, c *vk.Case, level bool, scratch string) {
 	nKeys := rng.Range(4, 10)
 	steps := rng.Range(30, r.N(90, 160))
 	if level {
-		steps = rng.Range(25, 60)
+		steps = rng.Range(25, r.N(40, 60))
 	}
-	cfg := map[string]interface{}{"fullHistory": fh, "numActive": numActive, "numKeep": numKeep, "shouldClean": clean, "startingEpoch": start, "bloom": withBloom, "cacheCapacity": capacity, "keys": nKeys, "db": map[bool]string{false: "memorydb-by-path", true: "LvlDBSerial"}[level]}
+	cfg := map[string]interface{}{"stuckShardBias": stuck, "fullHistory": fh, "numActive": numActive, "numKeep": numKeep, "shouldClean": clean, "startingEpoch": start, "bloom": withBloom, "cacheCapacity": capacity, "keys": nKeys, "db": map[bool]string{false: "memorydb-by-path", true: "LvlDBSerial"}[level]}
 
 	dir := ""
 	if level {
@@ -560,6 +658,14 @@ func runHistory(r *vk.Run, c *vk.Case, level bool, scratch string) {
 	for step := 0; step < steps && !h.fail; step++ {
 		k := h.keys[rng.Intn(nKeys)]
 		op := rng.Intn(100)
+		if stuck {
+			if xk := h.extendedKeys(); len(xk) > 0 && rng.Chance(1, 2) {
+				k = xk[rng.Intn(len(xk))]
+				if rng.Chance(3, 5) {
+					op = 50 // Remove
+				}
+			}
+		}
 		switch {
 		case op < 34:
 			target := m.cur
@@ -595,19 +701,22 @@ func runHistory(r *vk.Run, c *vk.Case, level bool, scratch string) {
 				}
 				break
 			}
-			if m.inL(e) {
-				set(m.must, e, k)
+			if m.inL(e) || (!m.fh && m.inActiveList(e)) {
+				set(m.must, e, k) // put while that epoch is open
 			}
 			set(m.maybe, e, k)
 			delete(m.removed, k)
 		case op < 56:
 			h.trace = append(h.trace, fmt.Sprintf("Remove(%s)", k))
 			h.kinds["Remove"]++
+			if h.extendedHolds(k) {
+				h.kinds["Remove_of_key_in_extended_epoch"]++
+			}
 			_ = ps.Remove([]byte(k))
 			for e := range m.must {
 				delete(m.must[e], k)
 			}
-			for _, e := range m.lEpochs() {
+			for _, e := range m.activeEpochs() {
 				delete(m.maybe[e], k)
 			}
 			m.removed[k] = true
@@ -627,12 +736,23 @@ func runHistory(r *vk.Run, c *vk.Case, level bool, scratch string) {
 			var inForce *metaInfo
 			variant := "shard-header"
 			if !fh {
+				var target *uint32
+				if stuck {
+					if cand := h.stuckCandidates(e); len(cand) > 0 && rng.Chance(3, 4) {
+						x := cand[rng.Intn(len(cand))]
+						target = &x
+					}
+				}
 				mk := func() (*block.MetaBlock, *metaInfo) {
 					oldest := e
 					mb := &block.MetaBlock{Epoch: e}
 					for s := 0; s < 2; s++ {
 						fe := e
-						if rng.Chance(1, 2) {
+						if target != nil {
+							if s == 0 {
+								fe = *target // shard 0 is stuck: its last finalized header is still in that epoch
+							}
+						} else if rng.Chance(1, 2) {
 							back := uint32(rng.Intn(7))
 							if back > e {
 								back = e
@@ -646,7 +766,11 @@ func runHistory(r *vk.Run, c *vk.Case, level bool, scratch string) {
 					}
 					return mb, &metaInfo{epoch: e, oldest: oldest}
 				}
-				switch x := rng.Intn(10); {
+				x := rng.Intn(10)
+				if target != nil {
+					x = 4 + rng.Intn(6)
+				}
+				switch {
 				case x < 4:
 					inForce = m.prepare
 					handler.EpochStartAction(&block.Header{Epoch: e})
@@ -716,8 +840,9 @@ func runHistory(r *vk.Run, c *vk.Case, level bool, scratch string) {
 		return
 	}
 	remChecks := h.kinds["check_removed_Get"]
-	r.Shape(fmt.Sprintf("fh=%v act=%d keep+%d clean=%v start=%d bloom=%v db=%v ext=%v leak=%v phantom=%v removedChecks=%v changes=%s",
-		fh, numActive, numKeep-numActive, clean, start > 0, withBloom, level, m.extensions > 0, m.leaks > 0, m.phantoms > 0, remChecks > 0, bucket(h.kinds["EpochChange"])))
+	r.Count("removed_checks_in_extended_epochs", h.kinds["check_removed_GetFromEpoch_extended"])
+	r.Shape(fmt.Sprintf("stuck=%v fh=%v act=%d keep+%d clean=%v start=%v bloom=%v db=%v ext=%v leak=%v phantom=%v removedChecks=%v xRemoved=%v changes=%s",
+		stuck, fh, numActive, numKeep-numActive, clean, start > 0, withBloom, level, m.extensions > 0, m.leaks > 0, m.phantoms > 0, remChecks > 0, h.kinds["check_removed_GetFromEpoch_extended"] > 0, bucket(h.kinds["EpochChange"])))
 	if c.Idx < 4 && r.NeedSample() {
 		n := len(h.trace)
 		if n > 16 {
@@ -761,10 +886,11 @@ func main() {
 		}
 	}
 	nMem := r.N(4000, 24000)
-	nLevel := r.N(0, 1600)
+	nLevel := r.N(120, 1600)
 	r.Parallel(nMem+nLevel, func(c *vk.Case) {
 		runHistory(r, c, c.Idx >= nMem, scratch)
 	})
+	r.Extra("leveldb_histories_cpu_seconds_summed_over_workers", float64(atomic.LoadInt64(&levelNanos))/1e9)
 	if ownScratch != "" {
 		_ = os.RemoveAll(ownScratch)
 	}
